@@ -177,10 +177,12 @@ func runC11(c *Ctx) {
 	c.rule("unset-stays-unset", "string-cast Unmangle returns the zero of the field type for a nil *string before parsing anything", 1)
 	c.rule("flatten-flag-accumulates", "in the flatten unmangler the 'any child set' flag is old || nested after a nested struct and true under a non-nil leaf, and gates the parent pointer (a variable that is present must not be dropped because a later sibling struct is empty); shared with C10", 3)
 	c10FlattenFlag(c)
+	c.rule("single-token-per-part", "in the map splitter a token's text is stored into the key (value) state only while that part's already-read flag is false, and the store sets the flag: a second token for the same part is an error, never a silent replacement (an unparsable value is an error rather than a truncated one)", 2)
 	c.rule("pair-state-reset", "after the map splitter hands a (key, value) pair to its callback, both pieces of state are reset to \"\" on every path that continues parsing (a value must not leak into a later key that has none)", 2)
 	c.rule("narrowing-guard", "an out-of-range value is an error, never truncated: every narrowing conversion of a parsed number is bounded by the strconv bit size or a dominating reflect Overflow test of the matching type; shared with C15", 10)
 	c15Narrowing(c)
 	c15PairStateReset(c, "pair-state-reset")
+	c15SingleTokenPerPart(c, "single-token-per-part")
 
 	w := c.W
 	f := w.fn("sources/env", "Source.Value")
